@@ -1,4 +1,6 @@
 import EpsicProofs.Props.C10
+import EpsicProofs.Props.C04
+import EpsicProofs.Props.C03
 /-! # C09 — Hermitian square root (and polar decomposition)
 
 `Quat.sqrtH` is `sqrt(Quaternion<T,Hermitian>)` with the scalar square root as a leaf and the
@@ -148,4 +150,169 @@ example : (0:ℚ) ≤ (5/4) ∧ 0 ≤ Quat.detH (⟨5/4, 3/4, 0, 0⟩ : Quat ℚ
   · norm_num
   · simp only [Quat.detH]; norm_num
 
+
+/-! ## polar decomposition -/
+set_option linter.unusedSimpArgs false
+macro "alg" : tactic =>
+  `(tactic| ((first | ext | skip) <;> simp only [epsic, Cx.norm_def] <;> (try field_simp) <;> ring))
+
+/-- the complex square-root leaf: whatever it returns squares to its argument -/
+def CsqrtSpec (csqrt : Cx K → R (Cx K)) : Prop := ∀ z d, csqrt z = .ok d → d * d = z
+
+/-- a Hermitian product is recovered from the real parts of its Hermitian-basis components -/
+theorem hermitian_product_real (a : Jones K) : convertHR (Quat.realQ (toHermitian (a * a.herm))) = a * a.herm := by alg
+
+theorem hq_s0_nonneg (a : Jones K) : 0 ≤ (Quat.realQ (toHermitian (a * a.herm))).s0 := by
+  simp only [epsic]
+  nlinarith [mul_self_nonneg a.j00.re, mul_self_nonneg a.j00.im, mul_self_nonneg a.j01.re, mul_self_nonneg a.j01.im,
+    mul_self_nonneg a.j10.re, mul_self_nonneg a.j10.im, mul_self_nonneg a.j11.re, mul_self_nonneg a.j11.im]
+
+theorem hq_det (a : Jones K) : Quat.detH (Quat.realQ (toHermitian (a * a.herm))) = a.det.norm := by
+  simp only [epsic, Cx.norm_def]; ring
+
+/-- **SU(2)**: a Jones matrix with `J J† = 1` and `det J = 1` has the form `[[a, b], [-b̄, ā]]`, so the real
+parts of its unitary-basis components reproduce it -/
+theorem su2_real (j : Jones K) (hu : j * j.herm = Jones.identity) (hd : j.det = one) :
+    convertUR (Quat.realQ (toUnitary j)) = j := by
+  have e1 := congrArg (fun m => m.j00.re) hu
+  have e2 := congrArg (fun m => m.j11.re) hu
+  have e3 := congrArg (fun m => m.j01.re) hu
+  have e4 := congrArg (fun m => m.j01.im) hu
+  have e5 := congrArg (fun m => m.re) hd
+  have e6 := congrArg (fun m => m.im) hd
+  simp only [epsic] at e1 e2 e3 e4 e5 e6
+  have g1 : j.j11.re = j.j00.re := by
+    linear_combination j.j00.re * e5 + j.j00.im * e6 - j.j11.re * e1 + j.j01.re * e3 + j.j01.im * e4
+  have g2 : j.j11.im = -j.j00.im := by
+    linear_combination j.j00.re * e6 - j.j00.im * e5 - j.j11.im * e1 + j.j01.im * e3 - j.j01.re * e4
+  have g3 : j.j10.re = -j.j01.re := by
+    linear_combination j.j00.re * e3 + j.j00.im * e4 - j.j10.re * e1 - j.j01.re * e5 - j.j01.im * e6
+  have g4 : j.j10.im = j.j01.im := by
+    linear_combination j.j00.im * e3 - j.j00.re * e4 - j.j10.im * e1 - j.j01.re * e6 + j.j01.im * e5
+  ext <;> simp only [epsic] <;> first
+    | linear_combination (-1/2 : K) * g1 | linear_combination (1/2 : K) * g1
+    | linear_combination (-1/2 : K) * g2 | linear_combination (1/2 : K) * g2
+    | linear_combination (-1/2 : K) * g3 | linear_combination (1/2 : K) * g3
+    | linear_combination (-1/2 : K) * g4 | linear_combination (1/2 : K) * g4
+
+theorem detU_of_su2 (j : Jones K) (hu : j * j.herm = Jones.identity) (hd : j.det = one) :
+    Quat.detU (Quat.realQ (toUnitary j)) = 1 := by
+  have h := su2_real j hu hd
+  have e := congrArg (fun m => m.det.re) h
+  have e5 := congrArg (fun m => m.re) hd
+  simp only [epsic] at e e5 ⊢
+  linear_combination e + e5
+
+theorem norm_pos_of_ne (d : Cx K) (h : d.norm ≠ 0) : d.re*d.re + d.im*d.im ≠ 0 := by simpa [Cx.norm_def] using h
+
+/-- dividing a matrix by a square root of its determinant gives unit determinant -/
+theorem det_div_root (j : Jones K) (d : Cx K) (hd : d * d = j.det) (hnz : d.norm ≠ 0) :
+    (Jones.smulC (Cx.divRaw one d) j).det = one := by
+  have h1 := congrArg (fun z => z.re) hd
+  have h2 := congrArg (fun z => z.im) hd
+  have hn := norm_pos_of_ne d hnz
+  simp only [epsic] at h1 h2
+  have hn' : d.re ^ 2 + d.im ^ 2 ≠ 0 := by simpa [sq] using hn
+  ext
+  · simp only [epsic, Cx.norm_def]
+    field_simp
+    linear_combination (-(d.re^2 - d.im^2)) * h1 - (2 * d.re * d.im) * h2
+  · simp only [epsic, Cx.norm_def]
+    field_simp
+    linear_combination (-(d.re^2 - d.im^2)) * h2 + (2 * d.re * d.im) * h1
+
+theorem smulC_divRaw_cancel (j : Jones K) (d : Cx K) (hnz : d.norm ≠ 0) :
+    Jones.smulC d (Jones.smulC (Cx.divRaw one d) j) = j := by
+  have hn := norm_pos_of_ne d hnz
+  have hn' : d.re ^ 2 + d.im ^ 2 ≠ 0 := by simpa [sq] using hn
+  ext <;> simp only [epsic, Cx.norm_def] <;> field_simp <;> ring
+
+/-- inverse of a Hermitian quaternion of unit determinant -/
+theorem invHR_unit (h : Quat K) (hd : Quat.detH h = 1) :
+    Quat.invHR h = .ok ⟨h.s0, -h.s1, -h.s2, -h.s3⟩ := by
+  simp only [Quat.invHR, Quat.invWith, Quat.recipNegR, hd]
+  rw [sdiv_ok (by norm_num : (1 : K) ≠ 0)]
+  simp [bind, Except.bind, pure, Except.pure, one_eq]
+theorem inv_mul_unit (h : Quat K) (hd : Quat.detH h = 1) :
+    convertHR ⟨h.s0, -h.s1, -h.s2, -h.s3⟩ * convertHR h = Jones.identity ∧
+    convertHR h * convertHR ⟨h.s0, -h.s1, -h.s2, -h.s3⟩ = Jones.identity := by
+  simp only [epsic] at hd
+  constructor <;> (ext <;> simp only [epsic] <;> first | ring1 | linear_combination hd)
+
+/-- **polar decomposition**: whenever `polar` returns `(d, h, u)` for a Jones matrix `J`, then
+`J = d · H · U` with `H = convert(h)` Hermitian positive semi-definite of unit determinant and
+`U = convert(u)` unitary of unit determinant (`U U† = 1`), and `d² = det J` -/
+theorem polar_spec (csqrt : Cx K → R (Cx K)) (hc : CsqrtSpec csqrt) (sqrtFn : K → R K) (hs : SqrtSpec sqrtFn)
+    (o : Quat.OrdLeaves K) (ho : OrdSpec o) (j : Jones K) (d : Cx K) (h u : Quat K)
+    (hres : Pauli.polar csqrt sqrtFn o j = .ok (d, h, u)) :
+    d * d = j.det ∧
+    j = Jones.smulC d (convertHR h * convertUR u) ∧
+    Quat.detH h = 1 ∧ (0 ≤ h.s0 ∧ h.s1*h.s1 + h.s2*h.s2 + h.s3*h.s3 ≤ h.s0*h.s0) ∧
+    Quat.detU u = 1 ∧ convertUR u * (convertUR u).herm = Jones.identity := by
+  unfold Pauli.polar at hres
+  cases hd : csqrt j.det with
+  | error e => simp [hd, bind, Except.bind] at hres
+  | ok d' =>
+    simp only [hd, bind, Except.bind] at hres
+    have hdd := hc _ _ hd
+    cases hj1 : j.sdivC d' with
+    | error e => simp [hj1] at hres
+    | ok j1 =>
+      simp only [hj1] at hres
+      -- the division succeeded: d' ≠ 0 and j1 = j / d'
+      have hnz : d'.norm ≠ 0 := by
+        intro hz
+        simp [Jones.sdivC, Cx.div_err hz, bind, Except.bind] at hj1
+      have hj1' : j1 = Jones.smulC (Cx.divRaw one d') j := by
+        simp [Jones.sdivC, Cx.div_ok hnz, bind, Except.bind, pure, Except.pure] at hj1
+        exact hj1.symm
+      set hq := Quat.realQ (toHermitian (j1 * j1.herm)) with hhq
+      cases hh : Quat.sqrtH sqrtFn o hq with
+      | error e => simp [hh] at hres
+      | ok h' =>
+        simp only [hh] at hres
+        -- the Hermitian factor: H² = j1 j1†, PSD, unit determinant
+        have hj1det : j1.det = one := by rw [hj1']; exact det_div_root j d' hdd hnz
+        have hs0 : 0 ≤ hq.s0 := hq_s0_nonneg j1
+        have hqdet : Quat.detH hq = 1 := by
+          rw [hhq, hq_det, hj1det]; simp [Cx.norm_def]
+        have hsq := sqrt_sq sqrtFn hs o ho hq h' hs0 (by rw [hqdet]; exact zero_le_one) hh
+        have hH2 : convertHR h' * convertHR h' = j1 * j1.herm := by
+          rw [sqrt_sq_matrix sqrtFn hs o ho hq h' hs0 (by rw [hqdet]; exact zero_le_one) hh, hhq, hermitian_product_real]
+        obtain ⟨⟨q0, q1, q2, q3⟩, hpsd0, hpsd⟩ := hsq
+        have hdetsq : Quat.detH h' * Quat.detH h' = 1 := by
+          have : Quat.detH hq = 1 := hqdet
+          simp only [epsic] at this ⊢
+          rw [← this, ← q0, ← q1, ← q2, ← q3]; ring
+        have hdetnn : 0 ≤ Quat.detH h' := by simp only [epsic]; linarith
+        have hdet1 : Quat.detH h' = 1 := by nlinarith
+        -- its inverse
+        rw [invHR_unit h' hdet1] at hres
+        simp only [pure, Except.pure, Except.ok.injEq, Prod.mk.injEq] at hres
+        obtain ⟨rfl, rfl, hu⟩ := hres
+        obtain ⟨hinvL, hinvR⟩ := inv_mul_unit h' hdet1
+        set Hi := convertHR (⟨h'.s0, -h'.s1, -h'.s2, -h'.s3⟩ : Quat K) with hHi
+        set j2 := Hi * j1 with hj2
+        have hHiherm : Hi.herm = Hi := C03.convertHR_hermitian _
+        -- the unitary factor
+        have hj2u : j2 * j2.herm = Jones.identity := by
+          rw [hj2, C04.herm_mul, hHiherm, C04.mul_assoc', ← C04.mul_assoc' j1, ← hH2, C04.mul_assoc' (convertHR h'), hinvR,
+            C04.mul_one', hinvL]
+        have hj2d : j2.det = one := by
+          rw [hj2, C04.det_mul, hj1det, C03.det_convertHR]
+          have : Quat.detH (⟨h'.s0, -h'.s1, -h'.s2, -h'.s3⟩ : Quat K) = 1 := by simp only [epsic] at hdet1 ⊢; linarith
+          rw [this]; ext <;> simp [epsic]
+        have hU : convertUR u = j2 := by rw [← hu]; exact su2_real j2 hj2u hj2d
+        have hHj2 : convertHR h' * j2 = j1 := by
+          rw [hj2, ← C04.mul_assoc', hinvR, C04.one_mul']
+        refine ⟨hdd, ?_, hdet1, ⟨hpsd0, hpsd⟩, ?_, ?_⟩
+        · rw [hU, hHj2, hj1']; exact (smulC_divRaw_cancel j d' hnz).symm
+        · rw [← hu]; exact detU_of_su2 j2 hj2u hj2d
+        · rw [hU]; exact hj2u
+
+/-- non-vacuity: `polar` of twice the identity over ℚ with exact roots of 4 and 1 -/
+example : Pauli.polar (fun z : Cx ℚ => if z = ⟨4, 0⟩ then .ok ⟨2, 0⟩ else .error .sqrtIrr)
+    (fun x : ℚ => if x = 1 then .ok 1 else .error .sqrtIrr) ⟨fun x => decide (x < 0), fun a b => decide (a ≤ b), 0⟩
+    (⟨⟨2, 0⟩, ⟨0, 0⟩, ⟨0, 0⟩, ⟨2, 0⟩⟩ : Jones ℚ) = .ok (⟨2, 0⟩, ⟨1, 0, 0, 0⟩, ⟨1, 0, 0, 0⟩) := by
+  decide +kernel
 end Epsic.C09
